@@ -52,7 +52,21 @@ def stages(prog: Program) -> list[Stage]:
             kwargs = {**(kwargs or {}), **fn.kwargs}
             fn = fn.func
         fused: list[str] = []
-        if isinstance(fn, Func):
+        wrapper_call = None
+        if isinstance(fn, Func) and "." in fn.qual and "<locals>" not in fn.qual:
+            # a bound method that only forwards to a rewrite with some session values (`return set_schema(expression,
+            # current_database=self._conn.database)`): the stage is that rewrite, the forwarded values its arguments
+            body = [b for b in fn.node.body if not (isinstance(b, ast.Expr) and isinstance(b.value, ast.Constant))]
+            if len(body) == 1 and isinstance(body[0], ast.Return) and isinstance(body[0].value, ast.Call):
+                callee = body[0].value.func
+                cname = callee.id if isinstance(callee, ast.Name) else callee.attr if isinstance(callee, ast.Attribute) else None
+                tm = prog.modules.get("transforms")
+                if cname and tm is not None and cname in tm.functions and "." not in cname:
+                    wrapper_call = body[0].value
+                    name = cname
+        if wrapper_call is not None:
+            pass
+        elif isinstance(fn, Func):
             name = fn.qual
         else:
             # a lambda: the package functions it calls directly (depth 1 of the enter/leave nesting); more than one means
@@ -72,9 +86,10 @@ def stages(prog: Program) -> list[Stage]:
             name = tagof(fn)
         fdef = prog.modules["transforms"].functions.get(name) if "transforms" in prog.modules else None
         lam_kwargs = {}
-        if isinstance(fn, Lam) and isinstance(fn.node.body, ast.Call):
-            lam_kwargs = {k.arg: norm(k.value) for k in fn.node.body.keywords if k.arg}
-            for j, a in enumerate(fn.node.body.args[1:]):
+        fwd = fn.node.body if isinstance(fn, Lam) and isinstance(fn.node.body, ast.Call) else wrapper_call
+        if fwd is not None:
+            lam_kwargs = {k.arg: norm(k.value) for k in fwd.keywords if k.arg}
+            for j, a in enumerate(fwd.args[1:]):
                 lam_kwargs[f"#{j + 1}"] = norm(a)
         kw = {k: tagof(v) for k, v in (kwargs or {}).items()}
         kw.update(lam_kwargs)
